@@ -60,6 +60,8 @@ class IndexTok:
     def of(ex, index, node=None):
         if isinstance(index, IndexTok):
             return index
+        if isinstance(index, tuple) and len(index) == 1 and (index[0] is None or isinstance(index[0], slice)):
+            index = index[0]              # numpy: a[(x,)] is a[x]
         try:
             label = repr(index)
         except Exception:
